@@ -37,6 +37,10 @@ func dispatch(kind string, t *hlib.Toks) string {
 		return casePack(t)
 	case "unpack":
 		return caseUnpack(t)
+	case "rleenc":
+		return caseRleEnc(t)
+	case "rledec":
+		return caseRleDec(t)
 	}
 	return "UNKNOWN-KIND " + kind
 }
